@@ -231,6 +231,10 @@ def _judge(rep, case, fc, j, taps, n2, k, Permeance):
         if taps and taps2:
             rep.require("permeances x 2^n: permeate composition bit-identical", taps2[-1][0].p == taps[-1][0].p, case,
                         {"y": taps[-1][0].p, "y_scaled": taps2[-1][0].p})
+    elif st2 == "raised" and max(abs(j[0]), abs(j[1])) * max(f2, 1.0) > 1e300:
+        rep.count("scaled_call_overflowed(fluxes ~1e300 from an overflowing activity model)")
+    elif st2 == "slow":
+        rep.count("scaled_call_slow")
     else:
         rep.require("permeances x 2^n: same outcome", False, case, {"outcome": st2, "error": repr(j2)})
     st3, j3, _ = call(fc, Permeance(value=p1 * k), Permeance(value=p2 * k))
